@@ -113,5 +113,61 @@ func c15helperStrings(payload int) {
 	zzverif.Reached("c15-helper-strings-end")
 }
 
+// HarnessC15HelperEmpty: empty strings as elements, map values and slice-map values survive the
+// canonical text form (the empty value is a value, not a missing one).
+func HarnessC15HelperEmpty() {
+	k := "k"
+	kind := zzverif.Choose("kind", 4)
+	if kind == 2 {
+		// (the map and set helpers sort their keys when printing: those stay concrete)
+		k = zzverif.Bytes("k", 1)
+		zzverif.Assume(zzverif.InRange(k[0], 'a', 'z'))
+	}
+	switch kind {
+	case 0:
+		in := map[string]string{k: "", "zz": "x"}
+		text := NewMapStringStringFlag(&in).String()
+		var out map[string]string
+		err := NewMapStringStringFlag(&out).Set(text)
+		zzverif.Assert(err == nil, "C15 map[string]string: the canonical text of a map with an empty value does not parse")
+		if err == nil {
+			v, ok := out[k]
+			zzverif.Assert(ok && v == "" && len(out) == 2 && out["zz"] == "x", "C15 map[string]string: an entry whose value is the empty string was lost or changed in the round trip")
+		}
+	case 1:
+		in := map[string][]string{k: {"x", "", "y"}}
+		text := NewMapStringStringSliceFlag(&in).String()
+		var out map[string][]string
+		err := NewMapStringStringSliceFlag(&out).Set(text)
+		zzverif.Assert(err == nil, "C15 map[string][]string: the canonical text with an empty element does not parse")
+		if err == nil {
+			v := out[k]
+			zzverif.Assert(len(out) == 1 && len(v) == 3 && v[0] == "x" && v[1] == "" && v[2] == "y", "C15 map[string][]string: an empty-string element was lost or changed in the round trip")
+		}
+	case 2:
+		in := []string{"", k, ""}
+		text := NewStringSliceFlag(&in).String()
+		var dst []string
+		g := NewStringSliceFlag(&dst)
+		err := g.Set(text)
+		zzverif.Assert(err == nil, "C15 []string: the canonical text with empty elements does not parse")
+		if err == nil {
+			out, _ := g.Get().([]string)
+			zzverif.Assert(len(out) == 3 && out[0] == "" && zzverif.StrEq(out[1], k) && out[2] == "", "C15 []string: empty-string elements were lost or changed in the round trip")
+		}
+	case 3:
+		in := map[string]struct{}{"": {}, k: {}}
+		text := NewStringSetFlag(&in).String()
+		var out map[string]struct{}
+		err := NewStringSetFlag(&out).Set(text)
+		zzverif.Assert(err == nil, "C15 string set: the canonical text with the empty string as a member does not parse")
+		if err == nil {
+			_, ok := out[""]
+			zzverif.Assert(ok && len(out) == 2, "C15 string set: the empty-string member was lost in the round trip")
+		}
+	}
+	zzverif.Reached("c15-helper-empty-end")
+}
+
 func HarnessC15HelperStrings1() { c15helperStrings(1) }
 func HarnessC15HelperStrings2() { c15helperStrings(2) }
